@@ -60,6 +60,11 @@ func (p *Poller) Next() GenericDataType {
 		data, ok := p.Diode.TryNext()
 		if !ok {
 			if p.isDone() {
+				// A Set may have completed between the failed TryNext above and the
+				// cancellation: look once more so that Close drains what was written.
+				if data, ok := p.Diode.TryNext(); ok {
+					return data
+				}
 				return nil
 			}
 
